@@ -207,6 +207,68 @@ add('C12','stop-without-wait',P,"	close(cp.stopChan)\n	// wait for all connectio
 add('C12','async-delivery',P,"	cp.messageChan <- message\n","	go func() { cp.messageChan <- message }()\n",'R-OWNER.delivery')
 add('C12','unlock-missing-on-path',P,"func (cp *CollectingProcess) GetNumConnToCollector() int64 {\n	cp.mutex.RLock()\n	defer cp.mutex.RUnlock()\n	return int64(len(cp.clients))\n","func (cp *CollectingProcess) GetNumConnToCollector() int64 {\n	cp.mutex.RLock()\n	if len(cp.clients) == 0 {\n		return 0\n	}\n	n := int64(len(cp.clients))\n	cp.mutex.RUnlock()\n	return n\n",'R-LOCK.balanced')
 add('C12','listener-never-closed',T,"	<-cp.stopChan\n	listener.Close()\n}","	<-cp.stopChan\n}",'R-STOP.netread')
+add('C13','reentrant-numflows',A,"	currTime := time.Now()\n	for a.expirePriorityQueue.Len() > 0 {\n","	currTime := time.Now()\n	klog.V(4).InfoS(\"scan\", \"flows\", a.GetNumFlows())\n	for a.expirePriorityQueue.Len() > 0 {\n",'R-LOCK.reentrant')
+add('C13','unlock-around-callback',A,"		err := callback(*pqItem.flowKey, pqItem.flowRecord)\n		if err != nil {\n","		a.mutex.Unlock()\n		err := callback(*pqItem.flowKey, pqItem.flowRecord)\n		a.mutex.Lock()\n		if err != nil {\n",'R-LOCK')
+add('C14','set-deadline-both',E,"	ep.connToCollector.SetReadDeadline(time.Now().Add(time.Millisecond))\n","	ep.connToCollector.SetDeadline(time.Now().Add(time.Millisecond))\n",'R-OWNER.conn-methods')
+add('C14','send-bypasses-sendset',E,"func (ep *ExportingProcess) GetMsgSizeLimit() int {","func (ep *ExportingProcess) SendRaw(set entities.Set) (int, error) {\n	return ep.createAndSendIPFIXMsg(set)\n}\n\nfunc (ep *ExportingProcess) GetMsgSizeLimit() int {",'R-OWNER.sender-callers')
+add('C14','refresh-period-ms',E,"			ticker := time.NewTicker(time.Duration(input.TempRefTimeout) * time.Second)\n","			ticker := time.NewTicker(time.Duration(input.TempRefTimeout) * time.Millisecond)\n",'R-PERIOD')
+add('C14','checker-ignores-stop',E,"				case <-expProc.stopCh:\n					return\n				case <-ticker.C:\n					isConnected","				case <-ticker.C:\n					isConnected",'R-STOP.select')
+add('C14','update-template-unlocked',E,"	ep.templateMutex.Lock()\n	defer ep.templateMutex.Unlock()\n\n	if _, exist := ep.templatesMap[id]; exist {\n		return\n	}\n","	if _, exist := ep.templatesMap[id]; exist {\n		return\n	}\n",'R-LOCK.guarded')
+add('C09','no-undefined-gate',E,"	if setType == entities.Undefined {\n		return 0, fmt.Errorf(\"set type is not properly defined\")\n	}\n","",'R-GATE.undefined-type')
+add('C09','write-outside-sender',E,"	close(ep.stopCh)\n	if err := ep.connToCollector.Close(); err != nil {","	close(ep.stopCh)\n	_, _ = ep.connToCollector.Write([]byte{0, 10, 0, 16})\n	if err := ep.connToCollector.Close(); err != nil {",'R-OWNER.write')
+add('C09','register-before-send',E,"	if err != nil {\n		return bytesSent, err\n	}\n	// Templates are recorded only once they have been sent, so that data sets are never\n	// accepted for a template the collector did not receive.\n	if setType == entities.Template {\n		for _, record := range set.GetRecords() {\n			ep.updateTemplate(record.GetTemplateID(), record.GetOrderedElementList(), record.GetMinDataRecordLen())\n		}\n	}\n	return bytesSent, nil\n","	if setType == entities.Template {\n		for _, record := range set.GetRecords() {\n			ep.updateTemplate(record.GetTemplateID(), record.GetOrderedElementList(), record.GetMinDataRecordLen())\n		}\n	}\n	if err != nil {\n		return bytesSent, err\n	}\n	return bytesSent, nil\n",'R-GATE.register-after-send')
+add('C09','reset-keeps-type',SET,"	s.setType = Undefined\n	s.records = nil\n","	s.records = nil\n",'R-RESET')
+add('C19','ack-in-goroutine',K,"	if kp.input.KafkaLogSuccesses {\n		kafkaMsg := <-kp.producer.Successes()\n		klog.V(4).Infof(\"Sent the message successfully: %v\", kafkaMsg)\n	}\n","	if kp.input.KafkaLogSuccesses {\n		go func() {\n			kafkaMsg := <-kp.producer.Successes()\n			klog.V(4).Infof(\"Sent the message successfully: %v\", kafkaMsg)\n		}()\n	}\n",'R-ORDER.ack')
+add('C19','publish-reversed',K,"		for _, flowMsg := range flowMsgs {\n			kp.SendFlowMessage(flowMsg, true)\n		}\n","		for i := len(flowMsgs) - 1; i >= 0; i-- {\n			kp.SendFlowMessage(flowMsgs[i], true)\n		}\n",'R-ORDER')
+add('C19','convert-skips-slot',F1,"	for i, record := range records {\n		flowMsgs[i] = convertRecordToFlowMsg(msg, record)\n	}\n","	for i, record := range records {\n		flowMsgs[len(records)-1-i] = convertRecordToFlowMsg(msg, record)\n	}\n",'R-ORDER.convert')
+add('C19','convertor-global-state',F1,"type convertRecordToFlowType1 struct{}\n","type convertRecordToFlowType1 struct{}\n\nvar lastFlowType1 = &protobuf.FlowType1{}\n",'R-PURE.convertor',False,'',[(F1,"		flowType1 := &protobuf.FlowType1{}\n		flowType1.TimeReceived = msg.GetExportTime()\n","		flowType1 := lastFlowType1\n		flowType1.TimeReceived = msg.GetExportTime()\n")])
+add('C19','header-seq-from-domain',F1,"		flowType1.SequenceNumber = msg.GetSequenceNum()\n","		flowType1.SequenceNumber = msg.GetObsDomainID()\n",'R-VALUE.kafka-header')
+add('C19','consumer-strips-2',KC,"		value = value[msgDelimitLen:]\n","		value = value[msgDelimitLen-2:]\n",'R-TABLE.consumer')
+add('C20','render-misses-type',CC,"				case entities.Boolean:\n					fmt.Fprintf(&buf, \"    %s: %v \\n\", elem.Name, ie.GetBooleanValue())\n","",'R-EXHAUST')
+add('C20','bad-count-accepted',CC,"			if count, err = strconv.Atoi(countP); err != nil || count < 0 {\n","			if count, err = strconv.Atoi(countP); err != nil {\n",'R-GATE.refuse')
+add('C20','handler-lock-leak',CC,"		mutex.Lock()\n		defer mutex.Unlock()\n		klog.InfoS(\"Reset flow records\")\n","		mutex.Lock()\n		klog.InfoS(\"Reset flow records\")\n",'R-LOCK')
+add('C20','second-store-writer',CC,"		case msg := <-messageReceived:\n			addIPFIXMessage(msg)\n","		case msg := <-messageReceived:\n			addIPFIXMessage(msg)\n			if msg.GetSet().GetNumberOfRecords() == 0 {\n				mutex.Lock()\n				flowRecords = append(flowRecords, \"\")\n				mutex.Unlock()\n			}\n",'R-OWNER.store')
+add('C20','clamp-missing-upper',CC,"		if count < 0 || count > len(flowRecords) {\n","		if count < 0 {\n",'R-VALUE.clamp')
+add('C20','insert-at-front',CC,"	flowRecords = append(flowRecords, buf.String())\n","	flowRecords = append([]string{buf.String()}, flowRecords...)\n",'R-VALUE.insert')
+add('C20','reset-keeps-last',CC,"		flowRecords = []string{}\n","		if len(flowRecords) > 0 {\n			flowRecords = flowRecords[len(flowRecords)-1:]\n		}\n",'R-VALUE.reset')
+add('C20','text-trimmed',CC,"				w.Write([]byte(records[idx]))\n","				w.Write(bytes.TrimSpace([]byte(records[idx])))\n",'R-VALUE.verbatim')
+add('C18','dtls-client-ems-optional',E,"				RootCAs:              roots,\n				ExtendedMasterSecret: dtls.RequireExtendedMasterSecret,\n","				RootCAs:              roots,\n				ExtendedMasterSecret: dtls.RequestExtendedMasterSecret,\n",'R-TLS.dtls-ems')
+add('C18','server-name-dropped',E,"		Certificates: []tls.Certificate{cert},\n		RootCAs:      roots,\n		MinVersion:   tls.VersionTLS12,\n		ServerName:   config.ServerName,\n","		Certificates: []tls.Certificate{cert},\n		RootCAs:      roots,\n		MinVersion:   tls.VersionTLS12,\n",'R-TLS.server-name')
+add('C18','keypair-error-ignored',E,"	cert, err := tls.X509KeyPair(config.CertData, config.KeyData)\n	if err != nil {\n		return nil, err\n	}\n","	cert, _ := tls.X509KeyPair(config.CertData, config.KeyData)\n",'R-TLS.keypair')
+add('C18','client-cas-unchecked',T,"	ok := roots.AppendCertsFromPEM(cp.caCert)\n	if !ok {\n		return nil, fmt.Errorf(\"failed to parse root certificate\")\n	}\n","	if ok := roots.AppendCertsFromPEM(cp.caCert); !ok {\n		klog.Error(fmt.Errorf(\"failed to parse root certificate\"))\n	}\n",'R-TLS.client-cas')
+add('C18','cacert-cleared-later',P,"func (cp *CollectingProcess) GetAddress() net.Addr {","func (cp *CollectingProcess) DisableClientAuth() {\n	cp.caCert = nil\n}\n\nfunc (cp *CollectingProcess) GetAddress() net.Addr {",'R-OWNER.tls-fields')
+add('C04','lookup-skipped-when-known-empty',P,"	template, err := cp.getTemplateIEs(obsDomainID, templateID)\n	if err != nil {\n		return nil, fmt.Errorf(\"template %d with obsDomainID %d does not exist\", templateID, obsDomainID)\n	}\n","	template, err := cp.getTemplateIEs(obsDomainID, templateID)\n	if err != nil && dataBuffer.Len() > 0 {\n		return nil, fmt.Errorf(\"template %d with obsDomainID %d does not exist\", templateID, obsDomainID)\n	}\n",'R-GATE.lookup')
+add('C04','prepare-before-lookup',P,"	template, err := cp.getTemplateIEs(obsDomainID, templateID)\n	if err != nil {\n		return nil, fmt.Errorf(\"template %d with obsDomainID %d does not exist\", templateID, obsDomainID)\n	}\n	dataSet := entities.NewSet(true)\n	if err = dataSet.PrepareSet(entities.Data, templateID); err != nil {\n		return nil, err\n	}\n","	dataSet := entities.NewSet(true)\n	if err := dataSet.PrepareSet(entities.Data, templateID); err != nil {\n		return nil, err\n	}\n	if dataBuffer.Len() > 2 {\n		cp.incrementNumRecordsReceived()\n	}\n	template, err := cp.getTemplateIEs(obsDomainID, templateID)\n	if err != nil {\n		return nil, fmt.Errorf(\"template %d with obsDomainID %d does not exist\", templateID, obsDomainID)\n	}\n",'R-GATE.lookup-first')
+add('C04','store-skipped-for-empty',P,"	cp.addTemplate(obsDomainID, templateID, elementsWithValue)\n	return templateSet, nil\n","	if len(elementsWithValue) > 0 {\n		cp.addTemplate(obsDomainID, templateID, elementsWithValue)\n	}\n	return templateSet, nil\n",'R-GATE.store')
+add('C04','get-template-unlocked',P,"func (cp *CollectingProcess) getTemplateIEs(obsDomainID uint32, templateID uint16) ([]*entities.InfoElement, error) {\n	cp.mutex.RLock()\n	defer cp.mutex.RUnlock()\n","func (cp *CollectingProcess) getTemplateIEs(obsDomainID uint32, templateID uint16) ([]*entities.InfoElement, error) {\n",'R-LOCK.guarded')
+add('C04','templates-replaced-elsewhere',P,"func (cp *CollectingProcess) GetAddress() net.Addr {","func (cp *CollectingProcess) ForgetTemplates() {\n	cp.mutex.Lock()\n	defer cp.mutex.Unlock()\n	cp.templatesMap = make(map[uint32]map[uint16]*template)\n}\n\nfunc (cp *CollectingProcess) GetAddress() net.Addr {",'R-OWNER.templates')
+add('C03','panic-on-bad-version',P,"		return nil, fmt.Errorf(\"collector only supports IPFIX (v10); invalid version %d received\", version)\n","		panic(fmt.Errorf(\"collector only supports IPFIX (v10); invalid version %d received\", version))\n",'R-PANIC')
+add('C11','reader-exit-keeps-conn',T,"	defer conn.Close()\n	reader := bufio.NewReader(conn)\n","	reader := bufio.NewReader(conn)\n",'R-FRAME.close-on-exit')
+add('C11','decode-prefix-only',T,"			message, err := cp.decodePacket(bytes.NewBuffer(buff), address)\n","			message, err := cp.decodePacket(bytes.NewBuffer(buff[:len(buff)-1]), address)\n",'R-FRAME.message-bytes')
+add('C11','second-consumer',T,"	reader := bufio.NewReader(conn)\n	doneCh := make(chan struct{})\n","	reader := bufio.NewReader(conn)\n	if peek, err := reader.Peek(2); err == nil && peek[1] != 10 {\n		_, _ = reader.Discard(2)\n	}\n	doneCh := make(chan struct{})\n",'R-FRAME.single-consumer')
+add('C15','length-table-mac-8',IE,"	MacAddress:           6,\n","	MacAddress:           8,\n",'R-CODEC.length-table')
+add('C15','micros-decoded-as-u64',IE,"	case DateTimeMicroseconds, DateTimeNanoseconds:\n		return nil, fmt.Errorf(\"API does not support micro and nano seconds types yet\")\n	case MacAddress:\n		if value == nil {","	case DateTimeMicroseconds, DateTimeNanoseconds:\n		if value == nil {\n			return NewDateTimeMillisecondsInfoElement(element, 0), nil\n		}\n		return NewDateTimeMillisecondsInfoElement(element, binary.BigEndian.Uint64(value)), nil\n	case MacAddress:\n		if value == nil {",'R-CODEC')
+add('C15','string-length-without-prefix',IV,"func (s *StringInfoElement) GetLength() int {\n	if len(s.value) < 255 {\n		return len(s.value) + 1\n","func (s *StringInfoElement) GetLength() int {\n	if len(s.value) < 255 {\n		return len(s.value)\n",'R-CODEC')
+add('C17','keep-drops-trailing-zero',IE,"		if value != nil {\n			val = append(val, value...)\n		}\n		return NewOctetArrayInfoElement(element, val), nil\n","		if value != nil {\n			val = append(val, value[:len(value)-len(value)%2]...)\n		}\n		return NewOctetArrayInfoElement(element, val), nil\n",'R-VALUE.keep')
+add('C01','registry-maps-diverge',"pkg/registry/registry.go","	globalRegistryByID[ie.EnterpriseId][ie.ElementId] = &ie\n	globalRegistryByName[ie.EnterpriseId][ie.Name] = &ie\n\n","	byID := ie\n	globalRegistryByID[ie.EnterpriseId][ie.ElementId] = &byID\n	globalRegistryByName[ie.EnterpriseId][ie.Name] = &ie\n\n",'R-TABLE.registry-maps')
+add('C01','field-order-reversed',P,"		for _, ie := range template {\n			var length int\n","		for k := len(template) - 1; k >= 0; k-- {\n			ie := template[k]\n			var length int\n",'R-LAYOUT.field-order')
+add('C01','field-bytes-other-element',P,"			element, err := entities.DecodeAndCreateInfoElementWithValue(ie, dataBuffer.Next(length))\n","			element, err := entities.DecodeAndCreateInfoElementWithValue(template[0], dataBuffer.Next(length))\n",'R-LAYOUT.field-bytes')
+add('C01','template-header-swapped',P,"	if err := util.Decode(templateBuffer, binary.BigEndian, &templateID, &fieldCount); err != nil {\n","	if err := util.Decode(templateBuffer, binary.BigEndian, &fieldCount, &templateID); err != nil {\n",'R-LAYOUT.template')
+add('C01','udp-bypasses-decoder',U,"				message, err := cp.decodePacket(packet, addr)\n				if err != nil {\n","				message, err := cp.decodePacket(bytes.NewBuffer(packet.Bytes()[:packet.Len()/2*2]), addr)\n				if err != nil {\n",'R-')
+add('C05','prev-end-from-existing-start',A,"		incomingIe, _, _ := incomingRecord.GetInfoElementWithValue(\"flowStartSeconds\")\n		existingVal = incomingIe.GetUnsigned32Value()\n","		incomingIe, _, _ := existingRecord.GetInfoElementWithValue(\"flowStartSeconds\")\n		existingVal = incomingIe.GetUnsigned32Value()\n",'R-VALUE.prev-end')
+add('C05','dst-seed-uses-src-flag',A,"			value = uint64(0)\n			if fillDstStats {\n				value = ieWithValue.GetUnsigned64Value()\n			}\n","			value = uint64(0)\n			if fillSrcStats {\n				value = ieWithValue.GetUnsigned64Value()\n			}\n",'R-VALUE.base')
+add('C05','initial-throughput-unguarded',A,"	if timeEnd > timeStart {\n		incomingVal = byteCount * 8 / (uint64(timeEnd - timeStart))\n","	if timeEnd >= timeStart {\n		incomingVal = byteCount * 8 / (uint64(timeEnd - timeStart))\n",'R-VALUE.base')
+add('C05','wrong-getter-for-name',A,"	timeEnd, err = getUnsigned32ValueByIeName(record, \"flowEndSeconds\")\n","	timeEnd64, err := getUnsigned64ValueByIeName(record, \"flowEndSeconds\")\n	timeEnd = uint32(timeEnd64)\n",'R-GETTER.name')
+add('C07','correlate-u16-via-u8',A,"				val := ieWithValue.GetUnsigned16Value()\n				if val != uint16(0) {\n					existingIeWithValue, _, _ := existingRecord.GetInfoElementWithValue(field)\n					existingIeWithValue.SetUnsigned16Value(val)\n","				val := ieWithValue.GetUnsigned16Value()\n				if val != uint16(0) {\n					existingIeWithValue, _, _ := existingRecord.GetInfoElementWithValue(field)\n					existingIeWithValue.SetUnsigned8Value(uint8(val))\n",'R-SIBLING.correlate')
+add('C08','obs-domain-setter',E,"func (ep *ExportingProcess) GetMsgSizeLimit() int {","func (ep *ExportingProcess) SetObservationDomainID(id uint32) {\n	ep.obsDomainID = id\n}\n\nfunc (ep *ExportingProcess) GetMsgSizeLimit() int {",'R-OWNER.obs-domain')
+add('C08','seq-reset-api',E,"func (ep *ExportingProcess) GetMsgSizeLimit() int {","func (ep *ExportingProcess) ResetSequence() {\n	atomic.StoreUint32(&ep.seqNumber, 0)\n}\n\nfunc (ep *ExportingProcess) GetMsgSizeLimit() int {",'R-OWNER.seq')
+add('C08','template-id-in-refresher',E,"					err := expProc.sendRefreshedTemplates()\n","					expProc.templateID++\n					err := expProc.sendRefreshedTemplates()\n",'R-SHARE')
+# codec faults are also RFC-conformance faults (C02) and round-trip faults (C01)
+for m in list(M.get('C15',[])):
+    if m['name'] in ('encoder-signed16-little','bool-swapped','string-len-255','length-table-mac-8','string-length-without-prefix'):
+        for q in ('C02','C01'):
+            if not any(x['name']==m['name'] for x in M.get(q,[])):
+                d=dict(m); d['expect']=''; d['canary']=False; M.setdefault(q,[]).append(d)
 # ---- the independently seeded changes (seeded/<P>-<mN>/patch.diff) are part of the thorough self-test of their property
 import glob, os
 for d in sorted(glob.glob('/verif/seeded/C*-m*')):
